@@ -18,6 +18,25 @@ Lemma subset_In a b x : subset a b = true -> In x a -> In x b.
 Proof. unfold subset. rewrite forallb_forall. intros H Hi. apply mem_In. now apply H. Qed.
 
 (* ------------------------------------------------------------------ *)
+(** * lossy.TokenBuffer (nested in the pooled encoder; reset by tokens.Reset) *)
+
+(** State fields the acquire path leaves alone *)
+Definition unreset_state (fields : list string) (cls : list (string * fclass)) (assigned : list string) : list string :=
+  filter (fun f => match lookup f cls with Some State | Some Config => negb (mem f assigned) | _ => false end) fields.
+
+(** token pages grow with the amount of data, not the dimensions: the reuse path
+    calls tokens.Reset, and Reset re-slices the page list and re-adds a first page
+    whose count addPage zeroes *)
+Definition assigned_TokenBuffer : list string :=
+  strongly_written F.lossy_TokenBuffer_Reset_writes
+  ++ when (mem "addPage" F.lossy_TokenBuffer_Reset_calls) (strongly_written F.lossy_TokenBuffer_addPage_writes)
+  ++ when (mem "totalMB" (strongly_written F.lossy_TokenBuffer_Init_writes)) ["totalMB"].
+
+Lemma reset_complete_TokenBuffer :
+  reset_complete_b F.lossy_TokenBuffer_fields class_TokenBuffer assigned_TokenBuffer [] = true.
+Proof. vm_compute. reflexivity. Qed.
+
+(* ------------------------------------------------------------------ *)
 (** * lossy.VP8Encoder *)
 
 (** What the reuse path of NewEncoder / NewEncoderFromYUV re-initialises: the two
@@ -28,7 +47,9 @@ Definition acquire_calls_VP8Encoder : list string :=
 
 Definition assigned_via (calls : list string) (hit_writes : list (string * string)) (gate imp_touch : list string) : list string :=
   when (mem "resetForReuse" calls) (strongly_written F.lossy_VP8Encoder_resetForReuse_writes)
-  ++ strongly_written hit_writes
+  ++ filter (fun f => negb (String.eqb f "tokens")
+                       || reset_complete_b F.lossy_TokenBuffer_fields class_TokenBuffer assigned_TokenBuffer [])
+            (strongly_written hit_writes)   (* a reset delegated to TokenBuffer.Reset counts only if that reset is complete *)
   ++ when (mem "initSegments" calls) (strongly_written F.lossy_VP8Encoder_initSegments_writes)
   ++ when (mem "initEncoderParams" calls) (strongly_written F.lossy_VP8Encoder_initEncoderParams_writes)
   ++ gate
@@ -94,16 +115,6 @@ Lemma dimension_gate_derr :
   In "topDerr" (strongly_written F.lossy_VP8Encoder_allocateBuffers_writes).
 Proof. repeat split; apply mem_In; vm_compute; reflexivity. Qed.
 
-(** token pages grow with the amount of data, not the dimensions: the reuse path
-    calls tokens.Reset, and Reset re-slices the page list and re-adds a first page
-    whose count addPage zeroes *)
-Definition assigned_TokenBuffer : list string :=
-  strongly_written F.lossy_TokenBuffer_Reset_writes
-  ++ when (mem "addPage" F.lossy_TokenBuffer_Reset_calls) (strongly_written F.lossy_TokenBuffer_addPage_writes)
-  ++ when (mem "totalMB" (strongly_written F.lossy_TokenBuffer_Init_writes)) ["totalMB"].
-Lemma reset_complete_TokenBuffer :
-  reset_complete_b F.lossy_TokenBuffer_fields class_TokenBuffer assigned_TokenBuffer [] = true.
-Proof. vm_compute. reflexivity. Qed.
 Lemma dimension_gate_tokens :
   In "tokens.Reset" F.lossy_VP8Encoder_NewEncoder_calls /\ In "tokens.Reset" F.lossy_VP8Encoder_NewEncoderFromYUV_calls /\
   In "pages" assigned_TokenBuffer /\ In "curPage" assigned_TokenBuffer.
@@ -196,22 +207,18 @@ Definition assigned_lossy_Decoder : list string :=
   ++ when (mem "initFrame" F.lossy_Decoder_DecodeFrame_calls) (strongly_written F.lossy_Decoder_initFrame_writes).
 Definition released_lossy_Decoder : list string := strongly_written F.lossy_Decoder_ReleaseDecoder_writes.
 
-(** State fields the acquire path leaves alone *)
-Definition unreset_state (fields : list string) (cls : list (string * fclass)) (assigned : list string) : list string :=
-  filter (fun f => match lookup f cls with Some State | Some Config => negb (mem f assigned) | _ => false end) fields.
-
-(** Everything is reset except the fields listed in [unreset_lossy_Decoder] … *)
-Lemma reset_complete_lossy_Decoder_partial :
-  reset_complete_b F.lossy_Decoder_fields class_lossy_Decoder
-                   (assigned_lossy_Decoder ++ unreset_lossy_Decoder) released_lossy_Decoder = true.
+Lemma reset_complete_lossy_Decoder :
+  reset_complete_b F.lossy_Decoder_fields class_lossy_Decoder assigned_lossy_Decoder released_lossy_Decoder = true.
 Proof. vm_compute. reflexivity. Qed.
 
-(** … and that list is exactly what the code leaves stale today (so a second
-    forgotten field, or a fix of this one, both change the statement) *)
-Lemma reset_incomplete_lossy_Decoder_refuted :
-  unreset_state F.lossy_Decoder_fields class_lossy_Decoder assigned_lossy_Decoder = unreset_lossy_Decoder
-  /\ reset_complete_b F.lossy_Decoder_fields class_lossy_Decoder assigned_lossy_Decoder released_lossy_Decoder = false.
-Proof. vm_compute. split; reflexivity. Qed.
+(** no Config/State field of any pooled type is left alone by its acquire path *)
+Lemma nothing_unreset :
+  unreset_state F.lossy_Decoder_fields class_lossy_Decoder assigned_lossy_Decoder = [] /\
+  unreset_state F.lossy_VP8Encoder_fields class_VP8Encoder assigned_VP8Encoder = [] /\
+  unreset_state F.lossy_TokenBuffer_fields class_TokenBuffer assigned_TokenBuffer = [] /\
+  unreset_state F.lossless_Encoder_fields class_lossless_Encoder assigned_lossless_Encoder = [] /\
+  unreset_state F.lossless_Decoder_fields class_lossless_Decoder assigned_lossless_Decoder = [].
+Proof. vm_compute. repeat split; reflexivity. Qed.
 
 Lemma released_lossy_Decoder_external :
   subset (fields_of_class External class_lossy_Decoder) released_lossy_Decoder = true.
@@ -271,9 +278,7 @@ Section Instances.
     hist_indep F.lossy_parallelState_fields class_parallelState assigned_parallelState
                (strongly_written F.lossy_parallelState_putParallelState_writes).
   Proof. inst reset_complete_parallelState. Qed.
-  (** lossy.Decoder: only once the unreset fields are reset too (the statement for
-      the code as it is today is refuted above) *)
-  Lemma history_independent_lossy_Decoder_partial :
-    hist_indep F.lossy_Decoder_fields class_lossy_Decoder (assigned_lossy_Decoder ++ unreset_lossy_Decoder) released_lossy_Decoder.
-  Proof. inst reset_complete_lossy_Decoder_partial. Qed.
+  Lemma history_independent_lossy_Decoder :
+    hist_indep F.lossy_Decoder_fields class_lossy_Decoder assigned_lossy_Decoder released_lossy_Decoder.
+  Proof. inst reset_complete_lossy_Decoder. Qed.
 End Instances.
